@@ -42,24 +42,26 @@ fn resolve_renamed(crate_name: &CrateName, serde_renamed: &RenamedTypes, import_
 pub open spec fn new_name(c: &CrateName, m: &RenamedTypes, i: &HashSet<ImportedType>, id: String) -> String {
     match resolved(c, m, i, id@) { Some(n) => n, None => id }
 }
-/// C09: `b` is `a` with every mentioned type name replaced by the name its definition is emitted under, and nothing else changed
+/// C09: `b` is `a` with every mentioned type name - except the generic parameters `g` of the item - replaced by the name its definition is emitted
+/// under, and nothing else changed
 /// (relational form: no Vec / Box has to be constructed in a specification)
-pub open spec fn rewritten(c: &CrateName, m: &RenamedTypes, i: &HashSet<ImportedType>, a: RustType, b: RustType) -> bool
+pub open spec fn rewritten(c: &CrateName, m: &RenamedTypes, i: &HashSet<ImportedType>, g: Seq<String>, a: RustType, b: RustType) -> bool
     decreases a
 {
     match a {
-        RustType::Simple { id } => b == (RustType::Simple { id: new_name(c, m, i, id) }),
+        // C09: "generic parameters are never prefixed or renamed" - a name that is a generic parameter of the item stays
+        RustType::Simple { id } => b == (RustType::Simple { id: if g.contains(id) { id } else { new_name(c, m, i, id) } }),
         RustType::Generic { id, parameters } => match b {
             RustType::Generic { id: id2, parameters: p2 } => id2 == new_name(c, m, i, id) && p2@.len() == parameters@.len()
-                && forall|k: int| 0 <= k < parameters@.len() ==> rewritten(c, m, i, #[trigger] parameters@[k], p2@[k]),
+                && forall|k: int| 0 <= k < parameters@.len() ==> rewritten(c, m, i, g, #[trigger] parameters@[k], p2@[k]),
             _ => false,
         },
         RustType::Special(s) => match b { RustType::Special(s2) => match (s, s2) {
-            (SpecialRustType::Vec(x), SpecialRustType::Vec(y)) => rewritten(c, m, i, *x, *y),
-            (SpecialRustType::Array(x, n), SpecialRustType::Array(y, n2)) => n == n2 && rewritten(c, m, i, *x, *y),
-            (SpecialRustType::Slice(x), SpecialRustType::Slice(y)) => rewritten(c, m, i, *x, *y),
-            (SpecialRustType::Option(x), SpecialRustType::Option(y)) => rewritten(c, m, i, *x, *y),
-            (SpecialRustType::HashMap(x1, x2), SpecialRustType::HashMap(y1, y2)) => rewritten(c, m, i, *x1, *y1) && rewritten(c, m, i, *x2, *y2),
+            (SpecialRustType::Vec(x), SpecialRustType::Vec(y)) => rewritten(c, m, i, g, *x, *y),
+            (SpecialRustType::Array(x, n), SpecialRustType::Array(y, n2)) => n == n2 && rewritten(c, m, i, g, *x, *y),
+            (SpecialRustType::Slice(x), SpecialRustType::Slice(y)) => rewritten(c, m, i, g, *x, *y),
+            (SpecialRustType::Option(x), SpecialRustType::Option(y)) => rewritten(c, m, i, g, *x, *y),
+            (SpecialRustType::HashMap(x1, x2), SpecialRustType::HashMap(y1, y2)) => rewritten(c, m, i, g, *x1, *y1) && rewritten(c, m, i, g, *x2, *y2),
             (SpecialRustType::Vec(_), _) | (SpecialRustType::Array(_, _), _) | (SpecialRustType::Slice(_), _) | (SpecialRustType::Option(_), _)
                 | (SpecialRustType::HashMap(_, _), _) => false,
             (other, other2) => other == other2,
@@ -67,30 +69,30 @@ pub open spec fn rewritten(c: &CrateName, m: &RenamedTypes, i: &HashSet<Imported
     }
 }
 /// a field after reconciliation: only its type expression is rewritten
-pub open spec fn field_rewritten(c: &CrateName, m: &RenamedTypes, i: &HashSet<ImportedType>, a: RustField, b: RustField) -> bool {
-    rewritten(c, m, i, a.ty, b.ty) && b.id == a.id && b.comments == a.comments && b.has_default == a.has_default && b.decorators == a.decorators
+pub open spec fn field_rewritten(c: &CrateName, m: &RenamedTypes, i: &HashSet<ImportedType>, g: Seq<String>, a: RustField, b: RustField) -> bool {
+    rewritten(c, m, i, g, a.ty, b.ty) && b.id == a.id && b.comments == a.comments && b.has_default == a.has_default && b.decorators == a.decorators
 }
-pub open spec fn fields_rewritten(c: &CrateName, m: &RenamedTypes, i: &HashSet<ImportedType>, a: Seq<RustField>, b: Seq<RustField>) -> bool {
-    a.len() == b.len() && forall|k: int| 0 <= k < a.len() ==> field_rewritten(c, m, i, #[trigger] a[k], b[k])
+pub open spec fn fields_rewritten(c: &CrateName, m: &RenamedTypes, i: &HashSet<ImportedType>, g: Seq<String>, a: Seq<RustField>, b: Seq<RustField>) -> bool {
+    a.len() == b.len() && forall|k: int| 0 <= k < a.len() ==> field_rewritten(c, m, i, g, #[trigger] a[k], b[k])
 }
 /// C09 for an enum variant: the payload type / every struct-variant field type is rewritten, the variant itself is kept
-pub open spec fn variant_rewritten(c: &CrateName, m: &RenamedTypes, i: &HashSet<ImportedType>, a: RustEnumVariant, b: RustEnumVariant) -> bool {
+pub open spec fn variant_rewritten(c: &CrateName, m: &RenamedTypes, i: &HashSet<ImportedType>, g: Seq<String>, a: RustEnumVariant, b: RustEnumVariant) -> bool {
     match a {
         RustEnumVariant::Unit(sh) => b == a,
-        RustEnumVariant::Tuple { ty, shared } => match b { RustEnumVariant::Tuple { ty: ty2, shared: sh2 } => sh2 == shared && rewritten(c, m, i, ty, ty2), _ => false },
+        RustEnumVariant::Tuple { ty, shared } => match b { RustEnumVariant::Tuple { ty: ty2, shared: sh2 } => sh2 == shared && rewritten(c, m, i, g, ty, ty2), _ => false },
         RustEnumVariant::AnonymousStruct { fields, shared } => match b {
-            RustEnumVariant::AnonymousStruct { fields: f2, shared: sh2 } => sh2 == shared && fields_rewritten(c, m, i, fields@, f2@), _ => false },
+            RustEnumVariant::AnonymousStruct { fields: f2, shared: sh2 } => sh2 == shared && fields_rewritten(c, m, i, g, fields@, f2@), _ => false },
     }
 }
 pub open spec fn struct_rewritten(c: &CrateName, m: &RenamedTypes, i: &HashSet<ImportedType>, a: RustStruct, b: RustStruct) -> bool {
-    fields_rewritten(c, m, i, a.fields@, b.fields@) && b.id == a.id && b.generic_types == a.generic_types && b.comments == a.comments
+    fields_rewritten(c, m, i, a.generic_types@, a.fields@, b.fields@) && b.id == a.id && b.generic_types == a.generic_types && b.comments == a.comments
         && b.decorators == a.decorators && b.is_redacted == a.is_redacted
 }
 pub open spec fn shared_rewritten(c: &CrateName, m: &RenamedTypes, i: &HashSet<ImportedType>, a: RustEnumShared, b: RustEnumShared) -> bool {
     b.id == a.id && b.generic_types == a.generic_types && b.comments == a.comments && b.decorators == a.decorators
         && b.is_recursive == a.is_recursive && b.is_redacted == a.is_redacted
         && b.variants@.len() == a.variants@.len()
-        && forall|k: int| 0 <= k < a.variants@.len() ==> variant_rewritten(c, m, i, #[trigger] a.variants@[k], b.variants@[k])
+        && forall|k: int| 0 <= k < a.variants@.len() ==> variant_rewritten(c, m, i, a.generic_types@, #[trigger] a.variants@[k], b.variants@[k])
 }
 pub open spec fn enum_rewritten(c: &CrateName, m: &RenamedTypes, i: &HashSet<ImportedType>, a: RustEnum, b: RustEnum) -> bool {
     match a {
@@ -100,7 +102,7 @@ pub open spec fn enum_rewritten(c: &CrateName, m: &RenamedTypes, i: &HashSet<Imp
     }
 }
 pub open spec fn alias_rewritten(c: &CrateName, m: &RenamedTypes, i: &HashSet<ImportedType>, a: RustTypeAlias, b: RustTypeAlias) -> bool {
-    rewritten(c, m, i, a.r#type, b.r#type) && b.id == a.id && b.generic_types == a.generic_types && b.comments == a.comments
+    rewritten(c, m, i, a.generic_types@, a.r#type, b.r#type) && b.id == a.id && b.generic_types == a.generic_types && b.comments == a.comments
         && b.decorators == a.decorators && b.is_redacted == a.is_redacted
 }
 '''
@@ -108,7 +110,7 @@ pub open spec fn alias_rewritten(c: &CrateName, m: &RenamedTypes, i: &HashSet<Im
 VARIANT = [
     ins(A.sig(), '''
     ensures /*C09*/ final(variants)@.len() == old(variants)@.len(),
-        forall|k: int| 0 <= k < old(variants)@.len() ==> variant_rewritten(crate_name, serde_renamed, imported_types, #[trigger] old(variants)@[k], final(variants)@[k]),
+        forall|k: int| 0 <= k < old(variants)@.len() ==> variant_rewritten(crate_name, serde_renamed, imported_types, generic_types@, #[trigger] old(variants)@[k], final(variants)@[k]),
 ''', cid='check_variant.contract'),
     ins(A.body_start(), '''
     let ghost v0 = variants@;'''),
@@ -121,7 +123,7 @@ VARIANT = [
             it.history@ =~= it.snapshot@.remaining().take(it.index@ as int),
             it.index@ <= v0.len(),
             it.iter.remaining() =~= it.snapshot@.remaining().skip(it.index@ as int),
-            forall|k: int| 0 <= k < it.index@ ==> variant_rewritten(crate_name, serde_renamed, imported_types, v0[k], #[trigger] final(variants)@[k]),
+            forall|k: int| 0 <= k < it.index@ ==> variant_rewritten(crate_name, serde_renamed, imported_types, generic_types@, v0[k], #[trigger] final(variants)@[k]),
     """, cid='check_variant.variants_invariant'),
     ins(A.loop_body(0), """
         let ghost k0 = it.index@;
@@ -138,7 +140,7 @@ VARIANT = [
                         it2.history@ =~= it2.snapshot@.remaining().take(it2.index@ as int),
                         it2.index@ <= f0.len(),
                         it2.iter.remaining() =~= it2.snapshot@.remaining().skip(it2.index@ as int),
-                        forall|k: int| 0 <= k < it2.index@ ==> field_rewritten(crate_name, serde_renamed, imported_types, f0[k], #[trigger] final(fields)@[k]),
+                        forall|k: int| 0 <= k < it2.index@ ==> field_rewritten(crate_name, serde_renamed, imported_types, generic_types@, f0[k], #[trigger] final(fields)@[k]),
                 """, cid='check_variant.fields_invariant'),
     ins(A.loop_body(1), """
                     let ghost j0 = it2.index@;
@@ -190,7 +192,8 @@ BLOCK = [
                     itf.history@ =~= itf.snapshot@.remaining().take(itf.index@ as int),
                     itf.index@ <= f0.len(),
                     itf.iter.remaining() =~= itf.snapshot@.remaining().skip(itf.index@ as int),
-                    forall|k: int| 0 <= k < itf.index@ ==> field_rewritten(crate_name, &serde_renamed, &import_types, f0[k], #[trigger] final(s).fields@[k]),
+                    s.generic_types == sa.generic_types,
+                    forall|k: int| 0 <= k < itf.index@ ==> field_rewritten(crate_name, &serde_renamed, &import_types, sa.generic_types@, f0[k], #[trigger] final(s).fields@[k]),
             """, cid='block.fields_invariant'),
     ins(A.loop_body(1, fn='<block>'), """
                 let ghost j0 = itf.index@;
@@ -238,7 +241,7 @@ BLOCK = [
 
 CHECK = [
     ins(A.sig(), '''
-    ensures /*C09*/ rewritten(crate_name, serde_renamed, import_types, *old(ty), *final(ty)),
+    ensures /*C09*/ rewritten(crate_name, serde_renamed, import_types, generic_types@, *old(ty), *final(ty)),
     decreases *old(ty)
 ''', cid='check_type.contract'),
     ins(A.body_start(), '''
@@ -251,7 +254,7 @@ CHECK = [
     # T12: the loop variable `ty` shadows the parameter `ty`, which the termination measure has to name: alpha-renamed to `ty__`
     rep(A.text('for ty in parameters'), 'for ty__ in it: parameters.iter_mut()', tag='T4',
         note='IntoIterator for &mut Vec<T> is iter_mut() (std documentation); loop variable alpha-renamed (T12) because it shadows the parameter'),
-    rep(A.text('check_type(crate_name, serde_renamed, import_types, ty);', nth=1), 'check_type(crate_name, serde_renamed, import_types, ty__);', tag='T12',
+    rep(A.text('check_type(crate_name, serde_renamed, import_types, generic_types, ty);', nth=1), 'check_type(crate_name, serde_renamed, import_types, generic_types, ty__);', tag='T12',
         note='alpha-renaming of the shadowing loop variable'),
     ins(A.text('for ty in parameters'), """let ghost p0 = parameters@;
             let ghost id0 = *id;
@@ -272,7 +275,7 @@ CHECK = [
                     it.iter.remaining() =~= it.snapshot@.remaining().skip(it.index@ as int),
                     t0 == *old(ty),
                     forall|k: int| 0 <= k < p0.len() ==> decreases_to!(t0 => #[trigger] p0[k]),
-                    forall|k: int| 0 <= k < it.index@ ==> rewritten(crate_name, serde_renamed, import_types, p0[k], #[trigger] final(parameters)@[k]),
+                    forall|k: int| 0 <= k < it.index@ ==> rewritten(crate_name, serde_renamed, import_types, generic_types@, p0[k], #[trigger] final(parameters)@[k]),
             """, cid='check_type.arguments_invariant'),
     ins(A.loop_body(0), """
                 let ghost k0 = it.index@;
@@ -283,6 +286,7 @@ UNIT = Unit(
     name='recon',
     props=['C09', 'C07'],
     pre_verus=PRE_VERUS,
+    spec_files=['std_slices.rs'],
     prelude=PRELUDE,
     items=[
         Item('enum_RustType', RT, ['enum RustType']),
